@@ -555,8 +555,8 @@ void RootCluster::calculateClusterPathsToEachNode(size_t nodesCount)
                     // this replacement so we can still generate non-overlap 
                     // constraints between multiple nodes that are children
                     // of the same overlapping clusters.
-                    lcaChildJCluster->m_overlap_replacement_map[i] =
-                            lcaChildKCluster;
+                    lcaChildJCluster->m_overlap_replacement_map[i].push_back(
+                            lcaChildKCluster);
                     lcaChildJCluster->m_nodes_replaced_with_clusters.insert(i);
                 }
 
@@ -567,8 +567,8 @@ void RootCluster::calculateClusterPathsToEachNode(size_t nodesCount)
                     // this replacement so we can still generate non-overlap 
                     // constraints between multiple nodes that are children
                     // of the same overlapping clusters.
-                    lcaChildKCluster->m_overlap_replacement_map[i] =
-                            lcaChildJCluster;
+                    lcaChildKCluster->m_overlap_replacement_map[i].push_back(
+                            lcaChildJCluster);
                     lcaChildKCluster->m_nodes_replaced_with_clusters.insert(i);
                 }
             }
